@@ -593,7 +593,12 @@ func (g *Gen) applyContract(st *State, a contractApp) Val {
 		ctx.oldIsPre = true
 	}
 	for _, c := range a.requires {
-		goal := g.evalGoal(ctx, c.E)
+		// an oracle that names a local the changed code no longer has is contract drift (reported, dropped for this run),
+		// not a reason to give up the whole function: the other clauses of the call are still checked
+		goal, okc := g.evalGoalOrDrift(ctx, c, a.what+" precondition")
+		if !okc {
+			continue
+		}
 		g.oblige(st, "requires", a.clausePrefix+c.ID, a.what+": precondition "+c.Src, goal)
 	}
 	// effects
@@ -642,7 +647,10 @@ func (g *Gen) applyContract(st *State, a contractApp) Val {
 		xctx := &specCtx{g: g, st: pre, old: pre, binds: a.xbinds, oldIsPre: true}
 		for _, c := range a.extra.Requires {
 			// checked in the pre-state; reported at the call
-			goal := g.evalGoal(xctx, c.E)
+			goal, okc := g.evalGoalOrDrift(xctx, c, a.what+" call-site precondition")
+			if !okc {
+				continue
+			}
 			g.oblige(st, "requires", "callee "+a.extra.Name+" "+c.ID, a.what+": call-site precondition "+c.Src, goal)
 		}
 		a.sets = a.extra.Sets
